@@ -525,6 +525,7 @@ class HTTPWARCRecorderSession(BaseWARCRecorderSession):
         self._request_record = None
         self._response_record = None
         self._response_temp_file = self._new_temp_file(hint='warcsesrsp')
+        self._response_payload_offset = None
 
     def close(self):
         super().close()
@@ -577,11 +578,15 @@ class HTTPWARCRecorderSession(BaseWARCRecorderSession):
             WARCRecord.WARC_RECORD_ID]
         record.block_file = self._response_temp_file
 
+        # The raw header block, as formatted by the server, has been recorded
+        # at this point; the payload starts right after it.
+        self._response_payload_offset = self._response_temp_file.tell()
+
     def response_data(self, data: bytes):
         self._response_temp_file.write(data)
 
     def end_response(self, response: HTTPResponse):
-        payload_offset = len(response.to_bytes())
+        payload_offset = self._response_payload_offset
 
         self._response_record.block_file.seek(0)
         self._recorder.set_length_and_maybe_checksums(
